@@ -1,5 +1,7 @@
 import LitexProofs.Fhdl.StaticSound
 import LitexProofs.Fhdl.ModuleStep
+import LitexProofs.Fhdl.StaticStmt
+import LitexProofs.Fhdl.LowerCorrect
 /-
   C01 — generated Verilog behaves exactly like the simulated FHDL design.
 
@@ -137,6 +139,41 @@ theorem sync_block_equiv_partial (wd : Nat → Nat) (ρ : Env) (d : SyncDom) (m 
     (h : Rel wd ρ m p) (hd : distinctSs d.stmts) (hf : fitsSs ρ d.stmts = true) (hw : wfSs wd d.stmts) :
     Rel wd ρ (execFs ρ d.stmts m) (execVs ρ (printStmts d.stmts) p) :=
   sync_block_equiv wd ρ d m p h hd hf hw
+
+/-- **Static block theorem**: statements all of whose sites fit statically (`sfitsSs`, what the harness
+    computes for every site of every real core) satisfy the block theorem's side condition for EVERY valuation
+    with in-range signal values — so only the sites listed in corpus/C01/overflow_sites.json can ever make a
+    real core's text and simulation part. -/
+theorem static_block_sound (ss : Stmts) (h : sfitsSs ss = true) :
+    ∀ ρ : Env, envOkSs ρ ss = true → fitsSs ρ ss = true :=
+  fun ρ hρ => sfitsSs_sound ρ ss h hρ
+
+/-! ## Lowering (`_ComplexSliceLowerer` index arithmetic)
+
+  `sliceVal ρ e st len` = value of `_Slice(e, st, st+len)`.  NOT covered (and false, see the findings): the final
+  step of `visit_Slice` that drops the slice altogether when it covers the resolved node exactly — a Migen slice
+  is an unsigned zero-extending view, the bare node is not when it is signed or can be negative (`~x`, `a - b`). -/
+
+/-- **lowerSliceCat_correct**: descending into the `Cat` element that contains the slice (with the start index
+    made relative to that element, repeatedly through nested `Cat`s) does not change the slice's value. -/
+theorem lowerSliceCat_correct (ρ : Env) (e : Expr) (st len : Nat) :
+    sliceVal ρ (lowerCat e st len).1 (lowerCat e st len).2 len = sliceVal ρ e st len :=
+  lowerCat_correct ρ e st len
+
+/-- **lowerSliceReplicate_correct**: a non-empty slice inside the replicated value that lies within one copy is
+    the slice of that copy at `start % len(v)` (repeatedly through nested `Replicate`s). -/
+theorem lowerSliceReplicate_correct (ρ : Env) (e : Expr) (st len : Nat) (hl : 0 < len)
+    (hb : st + len ≤ (bitsSign e).1) :
+    sliceVal ρ (lowerRep e st len).1 (lowerRep e st len).2 len = sliceVal ρ e st len :=
+  lowerRep_correct ρ e st len hl hb
+
+/-- The slice really moves: `Cat(a[4], b[4], c[4])[5:7]` is resolved to `b[1:3]`. -/
+example : lowerCat (.cat [.sig 0 4 false, .sig 1 4 false, .sig 2 4 false]) 5 2 = (.sig 1 4 false, 1) := rfl
+
+/-- Negative witness for the dropped full-width slice (finding): `(~z)[0:1]` is 1 for z = 0, the bare `~z` the
+    lowerer leaves behind is −1, i.e. 15 in a 4-bit target. -/
+example : sliceVal (envL [0]) (.op1 .not (.sig 0 1 false)) 0 1 = 1 ∧
+          storeF (envL [0]) 4 (.op1 .not (.sig 0 1 false)) = 15 := by decide
 
 /-! ## Layer 2 — modules
 
